@@ -12,6 +12,24 @@ WT = os.environ.get("VERIF_MUTVERIFY", "/tmp/mutverify")
 def sh(cmd, cwd=None, timeout=1800):
     p = subprocess.run(cmd, cwd=cwd, shell=isinstance(cmd, str), stdout=subprocess.PIPE, stderr=subprocess.STDOUT, text=True, timeout=timeout)
     return p.returncode, p.stdout
+prev = None
+if os.environ.get("VERIF_SKIP_CONFIRM") and os.path.exists(os.path.join(d, "meta.json")):
+    try:
+        prev = json.load(open(os.path.join(d, "meta.json")))
+    except Exception:
+        prev = None
+if prev and prev.get("confirmed"):
+    # confirmed earlier (the change and the crate are the same): only the checks are run again, on the current machinery
+    meta = {k: prev[k] for k in ("property", "dir", "at_repo_commit", "needs", "confirmed", "why") if k in prev}
+    meta["ran"] = [r for r in prev.get("ran", []) if "cargo test" in r.get("cmd", "")]
+    rc, out = sh([os.path.join(V, "bin", "mutcheck"), os.path.join(d, "patch.diff"), pid, *others], timeout=7200)
+    meta["checks"] = out.strip().splitlines()
+    meta["detected_by_own_check"] = any(l.startswith(f"[{pid} rc=1]") for l in meta["checks"])
+    meta["other_checks_alarmed"] = [l.split()[0][1:] for l in meta["checks"] if " rc=1]" in l and not l.startswith(f"[{pid} ")]
+    meta["ran"].append({"cmd": f"bin/mutcheck {os.path.basename(d)}/patch.diff {pid} {' '.join(others)}"})
+    json.dump(meta, open(os.path.join(d, "meta.json"), "w"), indent=1)
+    print(json.dumps({k: meta.get(k) for k in ("confirmed", "why", "checks", "detected_by_own_check", "other_checks_alarmed")}, indent=1))
+    sys.exit(0)
 if not os.path.isdir(WT):
     sh(["git", "-C", REPO, "worktree", "add", "-q", "--detach", WT, "HEAD"])
 sh(f"git checkout -q --detach $(git -C {REPO} rev-parse HEAD) && git checkout -- . && git clean -fdq tests src", cwd=WT)
